@@ -68,10 +68,10 @@
     /// can be enumerated without overflow and its members are exactly base + (positions of the set bits below num_bits).
     /// @props C07 C06
     /// @kind bounded
-    /// @tier quick
+    /// @tier thorough
     /// @bounds num_bits <= 4, input length 0..=12
     /// @cbmc --unwind 8 --unwindset memcmp.0:50
-    /// @timeout 1200
+    /// @timeout 2400
     /// @fn FragmentNumberSet::try_read_from_bytes, FragmentNumberSet::new, FragmentNumberSet::set
     #[cfg_attr(kani, kani::proof)]
     fn c07_fragment_number_set_decoder_total_short() {
@@ -292,10 +292,10 @@
     /// no panic; the list loop consumes at least 4 bytes per iteration.
     /// @props C07 C06
     /// @kind bounded
-    /// @tier quick
+    /// @tier thorough
     /// @bounds input length 0..=12 bytes
     /// @unwind_failure violation
-    /// @timeout 1200
+    /// @timeout 2400
     /// @fn ParameterList::try_read_from_bytes, Parameter::try_read_from_bytes
     #[cfg_attr(kani, kani::proof)]
     fn c07_parameter_list_decoder_total() {
